@@ -37,8 +37,13 @@ def canon(path):
     p = path
     m = re.match(r"^<(.+) as ([^>]+?)(<.*>)?>::(\w+)$", p)
     if m:
-        return strip_generics(m.group(2)) + "::" + m.group(4)
-    return strip_generics(p)
+        r = strip_generics(m.group(2)) + "::" + m.group(4)
+    else:
+        r = strip_generics(p)
+    # x.min(y) and std::cmp::min(x, y) are the same function
+    if r.endswith("cmp::Ord::min") or r.endswith("cmp::Ord::max"):
+        r = "std::cmp::" + r.rsplit("::", 1)[1]
+    return r
 
 
 def is_call(t, *names):
@@ -934,6 +939,9 @@ def _facts_at(self, pos):
         if _writes_between(self, v, pos, parts, (u, v)):
             continue
         out.append(rel)
+        # the same relation read from the other side (a < b  ==  b > a): rules may look for either orientation
+        if rel[0] == 'cmp' and rel[2] != rel[3]:
+            out.append(('cmp', SWAP[rel[1]], rel[3], rel[2]))
     return out
 
 
@@ -973,6 +981,19 @@ def implies_ge(facts, a, b):
                     return True
                 if op == 'Le' and x[1] >= b[1]:
                     return True
+    return False
+
+
+def implies_nonzero(facts, a):
+    """do the facts imply a != 0 (unsigned)?"""
+    a = deep_strip(a)
+    for r in facts:
+        if r[0] != 'cmp':
+            continue
+        _, op, x, y = r
+        if x == a and y[0] == 'const' and isinstance(y[1], int):
+            if (op == 'Ne' and y[1] == 0) or (op == 'Gt' and y[1] >= 0) or (op == 'Ge' and y[1] >= 1) or (op == 'Eq' and y[1] != 0):
+                return True
     return False
 
 
